@@ -14,6 +14,7 @@ import shutil
 import subprocess
 import sys
 import tempfile
+import threading
 import time
 from concurrent.futures import ThreadPoolExecutor
 
@@ -101,12 +102,15 @@ class Ctx:
         self.tlc_transitions = 0
         self.tlc_runs = []
         self._n = 0
+        self._lock = threading.Lock()
         self._built = {}
 
     # ---------------------------------------------------------------- scratch
     def sub(self, name):
-        self._n += 1
-        d = os.path.join(self.scratch, "%s-%d" % (name, self._n))
+        with self._lock:
+            self._n += 1
+            k = self._n
+        d = os.path.join(self.scratch, "%s-%d" % (name, k))
         os.makedirs(d)
         return d
 
